@@ -1,6 +1,7 @@
 import Driver.Util
 import Driver.Tx
 import FjallModel.Mvcc.Kv
+import FjallModel.Mvcc.Filter
 namespace Driver
 open Fjall Fjall.Spec Fjall.Mvcc
 
@@ -58,8 +59,23 @@ def showKvOut : KvOut → String
   | .pair (some (k, v)) => s!"pair:{toHex k}={toHex v}"
   | .count n => s!"count:{n}"
 
+/-- the filter the `filt` engine installs: keys starting with `r` are removed, keys starting with
+    `x` get the value "REPL", everything else is kept -/
+def engineFilter : Filter := fun k =>
+  match k with
+  | 0x72 :: _ => .remove
+  | 0x78 :: _ => .replace [0x52, 0x45, 0x50, 0x4c]
+  | _ => .keep
+
 def kvCmd (s : Kv) (ws : List String) : Option (Kv × String) :=
   match ws with
+  | ["kv.op", "compactfall", ks, w] =>
+    match ks.toNat?, w.toNat? with
+    | some ks, some w =>
+      let t := s.trees ks
+      if t.tables.isEmpty then some (s, "unit") else
+      some ({ trees := s.upd ks (·.compactF engineFilter 0 t.tables.length w), seqno := s.seqno + 1 }, "unit")
+    | _, _ => some (s, "bad-op")
   | ["kv.reset"] => some ({}, "ok")
   | "kv.op" :: rest =>
     match parseKvOp s rest with
